@@ -20,7 +20,10 @@ RULE = ("each case = one run of one of the 11 shipped algorithms (round robin, s
         "int and str values (18%, the stream that exposed numpy.random.choice in random_value_selection), "
         "binary/unary/ternary integer matrix constraints (binary only for syncbb and dba), optional variable costs and "
         "initial values, min/max, random algorithm parameters, a seeded per-channel-FIFO schedule of 20-260 steps "
-        "from 6 policies (periodic actions of adsa are self-deliveries).  non-trivial = at least one "
+        "from 6 policies (periodic actions of adsa are self-deliveries).  Every 14th case TRIES to declare a variable "
+        "with an initial value outside its domain (falsy: 0/False/''/0.0, or truthy), through Variable / "
+        "VariableWithCostDict / VariableWithCostFunc or a yaml string: 'rejected' (ValueError) is the expected "
+        "observation, an accepted declaration is run and judged by the same oracle.  non-trivial = at least one "
         "_on_value_selection fired; distinct = distinct case JSON")
 MODELLED = ("Theorems (all schedules, all instances, all draws): in-domain selection for the handler-level models of "
             "dpop, syncbb, mgm, mgm2, dsa, dba, maxsum, amaxsum (other engineers' models, tied to the code by their own "
@@ -122,8 +125,39 @@ def gen_one(rng, algo):
                 kind=kind, seed=rng.randrange(10 ** 9), max_steps=rng.choice([20, 60, 120, 260]))
 
 
+INIT_ALGOS = ["mgm", "mgm2", "gdba", "maxsum", "amaxsum"]       # they select variable.initial_value at start
+
+
+def _bad_init(rng, dom):
+    """a value that is == to no element of dom: falsy ones first (0, False, '', 0.0), then truthy ones"""
+    falsy = [x for x in (0, False, "", 0.0) if not any(x == d for d in dom)]
+    truthy = [x for x in (99, "zz", -1, 7.5) if not any(x == d for d in dom)]
+    pool = falsy if (falsy and rng.random() < 0.6) else truthy
+    return rng.choice(pool)
+
+
+def gen_badinit(rng):
+    """a DCOP that TRIES to declare one variable with an initial value outside its domain, through the API
+    (Variable / VariableWithCostDict), through VariableWithCostFunc, or through a yaml string"""
+    algo = rng.choice(INIT_ALGOS) if rng.random() < 0.8 else rng.choice(ALGOS)
+    c = gen_one(rng, algo)
+    i = rng.randrange(len(c["vars"]))
+    v = dict(c["vars"][i])
+    v["init"] = _bad_init(rng, v["dom"])
+    c["vars"] = c["vars"][:i] + [v] + c["vars"][i + 1:]
+    c["via"] = rng.choice(["api", "api", "costfunc", "yaml", "yaml"])
+    c["badinit"] = [i, "falsy" if not v["init"] else "truthy"]
+    return c
+
+
 def gen(rng, n, tier):
-    return [gen_one(rng, ALGOS[k % len(ALGOS)]) for k in range(n)]
+    out = []
+    for k in range(n):
+        if k % 14 == 13:          # low-weight stream (7%): out-of-domain initial values
+            out.append(gen_badinit(rng))
+        else:
+            out.append(gen_one(rng, ALGOS[k % len(ALGOS)]))
+    return out
 
 
 # ------------------------------------------------------------------ implementation driver
@@ -137,6 +171,9 @@ def run_impl(case):
 
 # ------------------------------------------------------------------ oracle (independent: membership by ==)
 def oracle(case, o):
+    if o.get("rejected"):
+        # the declaration was refused: nothing can be selected.  Only legitimate for the bad-initial-value stream
+        return None if case.get("badinit") else "construction rejected: %s" % o.get("error")
     names = ["v%02d" % i for i in range(len(case["vars"]))]
     if sorted(o["varcomps"]) != names:
         return "%s: variable computations %s, expected %s" % (case["algo"], o["varcomps"], names)
@@ -176,6 +213,8 @@ def _mask(m):
 
 
 def coq_case(case, o):
+    if o.get("rejected"):
+        return "mkCase [] ANone"
     names = o["varcomps"]
     funnel = []
     for n_ in names:
@@ -222,7 +261,7 @@ def coq_case(case, o):
 
 # ------------------------------------------------------------------ evidence helpers
 def nontrivial(case, o):
-    return bool(o.get("events"))
+    return bool(o.get("events")) or bool(o.get("rejected"))
 
 
 def histogram(cases, obs):
@@ -231,6 +270,10 @@ def histogram(cases, obs):
         a = c["algo"]
         d = h.setdefault(a, dict(runs=0, calls=0, fired=0, raises=0, mixed_runs=0, driver_errors=0))
         d["runs"] += 1
+        if c.get("badinit"):
+            b = h.setdefault("bad_initial_value", {})
+            key = "%s_%s_%s" % (c["via"], c["badinit"][1], "rejected" if o.get("rejected") else "ACCEPTED")
+            b[key] = b.get(key, 0) + 1
         if "__driver_error__" in o:
             d["driver_errors"] += 1
             continue
